@@ -4,6 +4,7 @@ import (
 	"bytes"
 	"encoding/gob"
 	"fmt"
+	"sync"
 
 	"github.com/DistCompiler/pgo/distsys/tla"
 	"github.com/dgraph-io/badger/v3"
@@ -12,6 +13,25 @@ import (
 // badgerDB is the per-worker in-memory badger instance used by the persistent kinds.
 type badgerDB struct {
 	db *badger.DB
+}
+
+var (
+	dbMu    sync.Mutex
+	openDBs []*wenv
+)
+
+// closeBadgers closes every database opened so far (called between families: an open in-memory badger keeps
+// large arenas and background goroutines alive and slows everything that runs after it).
+func closeBadgers() {
+	dbMu.Lock()
+	defer dbMu.Unlock()
+	for _, env := range openDBs {
+		if env.db != nil {
+			env.db.db.Close()
+			env.db = nil
+		}
+	}
+	openDBs = nil
 }
 
 func openBadger(env *wenv) *badgerDB {
@@ -24,6 +44,9 @@ func openBadger(env *wenv) *badgerDB {
 		panic(fmt.Errorf("c01: cannot open in-memory badger: %w", err))
 	}
 	env.db = &badgerDB{db: db}
+	dbMu.Lock()
+	openDBs = append(openDBs, env)
+	dbMu.Unlock()
 	return env.db
 }
 
